@@ -44,6 +44,11 @@ Theorem C06_useless_sound : forall op s c w x, Fold.useless op s c = true -> x <
 Proof. exact useless_sound. Qed.
 Print Assumptions C06_useless_sound.
 
+(* conditional_constprop.rs: inside the true region of `x == c` the value IS c at run time *)
+Theorem C06_ccp_eq_sound : forall k x c, Run.cmp PEq k x c = Val 1 -> x = c.
+Proof. exact ccp_eq_sound. Qed.
+Print Assumptions C06_ccp_eq_sound.
+
 Theorem C06_fold_total : forall op lk rk l r, Fold.binop op lk rk l r <> RPanic.
 Proof. exact fold_binop_total. Qed.
 Print Assumptions C06_fold_total.
